@@ -1,5 +1,5 @@
 (* C05: byte-string primitives used by the TRANSLATED plaintext guards of negotiate.py (gen/IdentityGen.v) and by the
-   byte-level receive loop (lib/IdentityBytes.v).  Each is the python `bytes` method named in its comment, for all
+   byte-level receive loop (lib/IdentityBytes.v).  Negotiation.parseLines itself is C13's translation (gen/NegCodecGen.v).  Each is the python `bytes` method named in its comment, for all
    inputs.  Definitions only. *)
 From Coq Require Import ZArith List Bool.
 Import ListNotations.
@@ -50,45 +50,3 @@ Definition blower (s : list Z) : list Z := map lower_byte s.
 (* bytes.lstrip(): leading ASCII whitespace removed *)
 Fixpoint blstrip (s : list Z) : list Z :=
   match s with c :: r => if is_ws c then blstrip r else s | [] => [] end.
-
-(* bytes.index(b":"): offset of the first colon (ValueError when there is none) *)
-Fixpoint index_of (x : Z) (s : list Z) : option nat :=
-  match s with [] => None | c :: r => if c =? x then Some O else option_map S (index_of x r) end.
-
-(* Negotiation.parseLines: header.split(CRLF); per line: colon = line.index(":"), key = line[:colon].lower(),
-   value = line[colon+1:].lstrip(), block[ensure_str(key)] = ensure_str(value).  `decode` is six.ensure_str on bytes
-   (UTF-8, strict): None = UnicodeDecodeError.  Result: the (key, value) pairs in line order (the dict keeps the LAST
-   value of a repeated key: see dict_get), or None when any line raised. *)
-Section Parse.
-Variable decode : list Z -> option (list Z).
-
-Definition parse_line (line : list Z) : option (list Z * list Z) :=
-  match index_of 58 line with
-  | None => None
-  | Some colon =>
-      match decode (blower (firstn colon line)), decode (blstrip (skipn (S colon) line)) with
-      | Some k, Some v => Some (k, v)
-      | _, _ => None
-      end
-  end.
-
-Fixpoint parse_all (lines : list (list Z)) : option (list (list Z * list Z)) :=
-  match lines with
-  | [] => Some []
-  | l :: r => match parse_line l with
-              | None => None
-              | Some kv => match parse_all r with None => None | Some d => Some (kv :: d) end
-              end
-  end.
-
-Definition parse_lines (header : list Z) : option (list (list Z * list Z)) := parse_all (bsplit [13; 10] header).
-End Parse.
-
-(* dict lookup after the assignments of parseLines: the last pair with that key *)
-Fixpoint dict_get (k : list Z) (d : list (list Z * list Z)) : option (list Z) :=
-  match d with
-  | [] => None
-  | (k', v) :: r => match dict_get k r with Some v' => Some v' | None => if list_eqb k k' then Some v else None end
-  end.
-Definition dict_has (k : list Z) (d : list (list Z * list Z)) : bool :=
-  match dict_get k d with Some _ => true | None => false end.
